@@ -372,13 +372,80 @@ def restore_roundtrip(cx):
                 own = (ic, fl)
         seq.append((c, lst, kind, own))
     want = {("AddNode", "voters_outgoing"), ("RemoveNode", "voters_outgoing"), ("AddNode", "voters"), ("AddLearnerNode", "learners"), ("AddLearnerNode", "learners_next")}
+    if not pushes:
+        # second form: the two lists are collected from iterator chains,
+        #   (outgoing.iter().map(add).collect(), outgoing.iter().map(remove).chain(voters.iter().map(add)).chain(..).collect())
+        lists = _chain_lists(cx, tcs1)
+        if lists is not None:
+            out_l, in_l = lists
+            got = set(out_l) | set(in_l)
+            cx.check(got == want, "replay:lists", "to_conf_change_single emits add(outgoing), remove(outgoing), add(voters), add-learner(learners), add-learner(learners_next) (found %s)" % sorted(got))
+            oko = out_l == [("AddNode", "voters_outgoing")] and in_l[:1] == [("RemoveNode", "voters_outgoing")] and sorted(in_l[1:]) == sorted(want - {("AddNode", "voters_outgoing"), ("RemoveNode", "voters_outgoing")})
+            cx.check(oko, "replay:order", "in the incoming list every removal of an outgoing voter comes before the additions (voters, learners, staged learners), and the outgoing list holds only the outgoing voters")
+            pushes = None
     got = {(k, o[1]) for c, l, k, o in seq if o}
+    if pushes is None:
+        pass
+    else:
+        _replay_push_form(cx, g1, seq, want, got)
+    _replay_rest(cx, rf)
+
+
+def _chain_lists(cx, f):
+    """[(kind, ConfState field)] in order, for each of the two collected lists; None if the shape is not the chain form."""
+    from ..idioms import closure_returns
+    rets = cx.pg(f).returns()
+    if len(rets) != 1 or rets[0][1][0] != "tuple" or len(rets[0][1][1]) != 2:
+        return None
+
+    def items(e):
+        if e[0] == "call" and e[1].endswith("Iterator::chain") and len(e[2]) == 2:
+            a, b = items(e[2][0]), items(e[2][1])
+            return None if a is None or b is None else a + b
+        if e[0] == "call" and e[1].endswith("Iterator::map") and len(e[2]) == 2 and e[2][1][0] == "closure":
+            src, clos = e[2]
+            flds = [x[2].split(".")[1] for x in walk(src) if x[0] == "field" and x[2].startswith("ConfState.")]
+            if len(flds) != 1 or not (src[0] == "call" and (src[1].endswith("::iter") or src[1].endswith("into_iter"))):
+                return None
+            caps = dict(clos[2])
+            rs = closure_returns(cx.prog, clos[1])
+            if not rs or len(rs) != 1:
+                return None
+            v = rs[0][1]
+            if not (v[0] == "call" and v[1].endswith("new_conf_change_single") and len(v[2]) == 2):
+                return None
+            k = v[2][1]
+            if k[0] == "upvar":
+                k = caps.get(k[1], k)
+            if k[0] == "deref":
+                k = k[1]
+                if k[0] == "upvar":
+                    k = caps.get(k[1], k)
+            if k[0] != "enum" or not k[1].endswith("ConfChangeType"):
+                return None
+            return [(k[2], flds[0])]
+        return None
+    out = []
+    for comp in rets[0][1][1]:
+        if not (comp[0] == "call" and comp[1].endswith("Iterator::collect") and len(comp[2]) == 1):
+            return None
+        it = items(comp[2][0])
+        if it is None:
+            return None
+        out.append(it)
+    return out
+
+
+def _replay_push_form(cx, g1, seq, want, got):
     cx.check(got == want, "replay:lists", "to_conf_change_single emits add(outgoing), remove(outgoing), add(voters), add-learner(learners), add-learner(learners_next) (found %s)" % sorted(got))
     rm = [o[0] for c, l, k, o in seq if o and (k, o[1]) == ("RemoveNode", "voters_outgoing")]
     later = [(k, o[1], o[0]) for c, l, k, o in seq if o and (k, o[1]) in {("AddNode", "voters"), ("AddLearnerNode", "learners"), ("AddLearnerNode", "learners_next")}]
     same_list = len({l for c, l, k, o in seq if o and (k, o[1]) != ("AddNode", "voters_outgoing")}) == 1 and len({l for c, l, k, o in seq}) == 2
     oko = bool(rm) and len(later) == 3 and all(g1.dominated_by_block(ic.at, lambda b: b == rm[0].block) for _, _, ic in later)
     cx.check(oko and same_list, "replay:order", "in the incoming list every removal of an outgoing voter comes before the additions (voters, learners, staged learners), and the outgoing list holds only the outgoing voters")
+
+
+def _replay_rest(cx, rf):
     # the replay itself: a ConfState with outgoing voters is ALWAYS rebuilt through enter_joint (being joint is state:
     # outgoing set, auto_leave, the pending leave), one without through simple changes only
     gr = cx.pg(rf)
@@ -464,11 +531,13 @@ def _cc_lit(cx, l, depth=0):
         return l[2]
     if l[0] == "is" and l[2] is True and l[1][0] == "call" and l[1][1].endswith("::any") and depth < 2:
         for a in l[1][2]:
-            if a[0] == "closure":
-                from ..idioms import closure_returns
-                rets = closure_returns(cx.prog, a[1])
+            if a[0] in ("closure", "fnref"):
+                from ..idioms import callable_returns, bool_rows
+                rets = callable_returns(cx.prog, a)
                 if not rets:
                     return None
+                if a[0] == "fnref":
+                    rets = bool_rows(cx.facts, rets)
                 kinds = set()
                 for lits, v in [(r[0], r[1]) for r in rets]:
                     ks = [k for k in (_cc_lit(cx, x, depth + 1) for x in lits) if k]
